@@ -25,3 +25,4 @@ def run(repo, res, tier):
     from .. import hookrules as _hk
     _hk.rule_reindex(repo, res)
     _hk.rule_v5(repo, res)
+    _hk.rule_v6(repo, res)
